@@ -20,7 +20,7 @@ import ast
 from fractions import Fraction as Fr
 
 from verifkit import pat
-from verifkit.absrun import Obj, Runner, StandIn
+from verifkit.absrun import isinstance_names, Obj, Runner, StandIn
 from verifkit.core import Outcome
 from verifkit.dim import dims
 from verifkit.finite import Raised, Undecided, compared_constants, partition_reps
@@ -379,8 +379,7 @@ def r02_4(ctx):
 
         def hook(rn, ev, call, name, recv, args, kwargs, kind=kind):
             if name == "isinstance":
-                cls = call.args[1]
-                names = [cls.id] if isinstance(cls, ast.Name) else [e.id for e in cls.elts]
+                names = isinstance_names(call, args)
                 return kind in names
             if name == "Point2D":
                 return ("pt", args[0])
